@@ -1,4 +1,6 @@
 // one module per property (kept in a separate file so build.rs can enumerate them)
+mod ops;
+mod c02;
 mod c09;
 mod c12;
 mod c14;
